@@ -1424,6 +1424,7 @@ namespace pika::threads::detail {
             PIKA_THROWS_IF(ec, pika::error::invalid_status,
                 "scheduled_thread_pool<Scheduler>::suspend_processing_unit_direct",
                 "this thread pool does not support suspending processing units");
+            return;
         }
 
         if (threads::detail::get_self_ptr() &&
@@ -1435,6 +1436,7 @@ namespace pika::threads::detail {
                 "scheduled_thread_pool<Scheduler>::suspend_processing_unit_direct",
                 "this thread pool does not support suspending processing units from itself (no "
                 "thread stealing)");
+            return;
         }
 
         suspend_processing_unit_internal(virt_core, ec);
